@@ -142,6 +142,17 @@ func (vc *VC) Define(hint string, t Term) Term {
 	return Term{name, t.Sort}
 }
 
+// Name introduces a declared constant equal to t (unlike Define, the term is
+// hidden behind the constant, so it can be used inside quantifier patterns).
+func (vc *VC) Alias(hint string, t Term) Term {
+	if !strings.ContainsAny(t.S, " (") {
+		return t
+	}
+	c := vc.Fresh(hint, t.Sort)
+	vc.Lines = append(vc.Lines, "(assert (= "+c.S+" "+t.S+"))")
+	return c
+}
+
 // Assume adds an assumption.
 func (vc *VC) Assume(t Term) {
 	if t.S == "true" {
@@ -161,8 +172,21 @@ func (vc *VC) Ordinal(key string) int {
 	return n
 }
 
-// Oblige records an obligation.
+// Oblige records an obligation; a goal that is a conjunction (possibly behind
+// non-opaque spec predicates) is split into one obligation per conjunct.
 func (vc *VC) Oblige(fn, kind, detail string, pc, goal Term, info string) *Obligation {
+	parts := vc.W.splitGoal(goal, 0)
+	if len(parts) > 1 && kind != "cover" {
+		var last *Obligation
+		for i, p := range parts {
+			last = vc.oblige1(fn, kind, fmt.Sprintf("%s/%d", detail, i), pc, p, info)
+		}
+		return last
+	}
+	return vc.oblige1(fn, kind, detail, pc, goal, info)
+}
+
+func (vc *VC) oblige1(fn, kind, detail string, pc, goal Term, info string) *Obligation {
 	name := fn + "#" + kind
 	if detail != "" {
 		name += ":" + detail
@@ -213,6 +237,7 @@ func (o *Obligation) SMT() string {
 		sb.WriteByte('\n')
 	}
 	sb.WriteString(vc.W.subRefDecls())
+	sb.WriteString(vc.W.appDeclLines())
 	// string literals used directly by the VC
 	var ls []string
 	for l := range vc.usedLits {
@@ -305,6 +330,65 @@ func (vc *VC) implementsFacts() string {
 			}
 			sb.WriteString(fmt.Sprintf("(assert (= (implements! %d %d) %v))\n", itag, tag, types.Implements(ct, iface)))
 		}
+	}
+	return sb.String()
+}
+
+// splitGoal splits a goal term into conjuncts, looking through applications of
+// macro-defined (define-fun) spec predicates.
+func (w *World) splitGoal(g Term, depth int) []Term {
+	if depth > 6 || g.Sort != SBool {
+		return []Term{g}
+	}
+	s := g.S
+	if strings.HasPrefix(s, "(and ") {
+		var out []Term
+		for _, p := range splitTopLevel(s[1 : len(s)-1])[1:] {
+			out = append(out, w.splitGoal(Term{p, SBool}, depth+1)...)
+		}
+		return out
+	}
+	if strings.HasPrefix(s, "(sf!") {
+		parts := splitTopLevel(s[1 : len(s)-1])
+		name := strings.TrimPrefix(parts[0], "sf!")
+		si := w.specs[name]
+		if si != nil && si.declOnly == "" && si.bodyText != "" && strings.HasPrefix(si.bodyText, "(and ") {
+			args := parts[1:]
+			if len(args) == len(si.formalNames) {
+				body := substSymbols(si.bodyText, si.formalNames, args)
+				return w.splitGoal(Term{body, SBool}, depth+1)
+			}
+		}
+	}
+	return []Term{g}
+}
+
+// substSymbols replaces whole symbols in an s-expression text.
+func substSymbols(text string, names, values []string) string {
+	m := map[string]string{}
+	for i, n := range names {
+		m[n] = values[i]
+	}
+	var sb strings.Builder
+	i := 0
+	for i < len(text) {
+		c := text[i]
+		if c == '(' || c == ')' || c == ' ' {
+			sb.WriteByte(c)
+			i++
+			continue
+		}
+		j := i
+		for j < len(text) && text[j] != '(' && text[j] != ')' && text[j] != ' ' {
+			j++
+		}
+		tok := text[i:j]
+		if v, ok := m[tok]; ok {
+			sb.WriteString(v)
+		} else {
+			sb.WriteString(tok)
+		}
+		i = j
 	}
 	return sb.String()
 }
